@@ -76,6 +76,27 @@ func verifObj(kind string, tag string) Object {
 			m = m.Set(verifScalar('I', tag+"k"), verifScalar('I', tag+"v"))
 		}
 		return m
+	case 'P', 'G': // maps of exactly two pairs, as a SmallMap (P) or in the large representation (G: what a larger map shrinks to)
+		k1, k2 := verifScalar('I', tag+"k"), verifScalar('I', tag+"k")
+		vAssume(Cmp(k1, k2) < 0)
+		kv := []keyValuePair{{Key: k1, Value: verifScalar('I', tag+"v")}, {Key: k2, Value: verifScalar('I', tag+"v")}}
+		if kind[0] == 'G' {
+			return &BigMap{kv: kv}
+		}
+		sm := SmallMap{len: 2}
+		copy(sm.smallKV[:], kv)
+		return sm
+	case 'H': // a map whose key is a function / a large array / a small array holding a function
+		return NewMap().Set(Function{CacheKey: verifStr(tag, 1)}, verifScalar('I', tag+"v"))
+	case 'J':
+		els := make([]Object, 9)
+		for i := range els {
+			els[i] = Integer{Value: int64(i)}
+		}
+		els[8] = verifScalar('I', tag)
+		return NewMap().Set(NewArray(els), verifScalar('I', tag+"v"))
+	case 'L':
+		return NewMap().Set(NewArray([]Object{Function{CacheKey: verifStr(tag, 1)}}), verifScalar('I', tag+"v"))
 	case 'U':
 		return Function{CacheKey: verifStr(tag, 1)}
 	case 'E':
